@@ -145,8 +145,9 @@ def may_write(mask: int, sec: int) -> bool:
 
 
 def refusal(mask: int, sec: int, write: bool):
-    """(acceptable error codes, class) for a refused access; class 'plain_bit' when only the
-    READABLE/WRITEABLE bit refuses, 'requirement' when a security requirement is unmet."""
+    """(acceptable error codes, class) for a refused access. Classes: 'requirement' = a security
+    requirement is unmet; 'plain_bit' = requirement bits of that direction are set and met, only the
+    READABLE/WRITEABLE bit is missing; 'no_permission_bit' = no bit of that direction is set at all."""
     encrypted, authenticated = sec >= 1, sec >= 2
     bit, enc, authn, authz, not_permitted = (
         (WRITEABLE, W_ENC, W_AUTHN, W_AUTHZ, E_WRITE_NOT_PERMITTED) if write
@@ -166,7 +167,51 @@ def refusal(mask: int, sec: int, write: bool):
     if mask & authz:
         codes.add(E_AUTHZ)
         requirement = True
-    return codes, ('requirement' if requirement else 'plain_bit')
+    if requirement:
+        return codes, 'requirement'
+    return codes, ('plain_bit' if mask & (enc | authn | authz) else 'no_permission_bit')
+
+
+# Known finding F11a (see the final report): the server never looks at the READABLE / WRITEABLE bits.
+# Its triggers are excluded by construction (counted with ctx.exclude) unless known_findings.json
+# lists the signature, in which case a few are run so that the KNOWN-FINDING line is printed.
+KNOWN_TRIGGERS = {
+    'F11a/read_without_READABLE_requirements_met': 'disclosed/plain_bit/read_paths',
+    'F11a/read_with_no_read_permission_bit': 'disclosed/no_permission_bit/read_paths',
+    'F11a/write_without_WRITEABLE_requirements_met': 'changed/plain_bit/write_paths',
+}
+_listed: dict = {}
+_reproduced: dict = {}
+
+
+def known_trigger(cell):
+    _kind, mask, sec, path, _bearer = cell
+    write = path in WRITE_PATHS
+    if (may_write if write else may_read)(mask, sec):
+        return None
+    cls = refusal(mask, sec, write)[1]
+    if cls == 'plain_bit':
+        return 'F11a/write_without_WRITEABLE_requirements_met' if write else 'F11a/read_without_READABLE_requirements_met'
+    if cls == 'no_permission_bit' and not write:
+        return 'F11a/read_with_no_read_permission_bit'
+    return None
+
+
+def excluded(ctx, cell) -> bool:
+    """True if the cell is a trigger of a known finding and is not to be run."""
+    trig = known_trigger(cell)
+    if trig is None or ctx.replaying:
+        return False
+    if trig not in _listed:
+        from vlib.runner import load_known, match_known
+
+        _listed[trig] = match_known(PROPERTY, KNOWN_TRIGGERS[trig], load_known()) is not None
+    key = (trig, OP_OF[cell[3]][0])
+    if _listed[trig] and _reproduced.get(key, 0) < 2:
+        _reproduced[key] = _reproduced.get(key, 0) + 1
+        return False
+    ctx.exclude(trig)
+    return True
 
 
 # ---------------------------------------------------------------------------
@@ -597,6 +642,9 @@ class _Probe:
         self.failures = {}
         self.replaying = True
 
+    def exclude(self, *a):
+        pass
+
     def fail(self, sig, what, case):
         self.failures.setdefault(sig, (what, case))
 
@@ -621,11 +669,15 @@ def judge(env, cell, plan, got, after, follow):
 
     r_codes, r_class = refusal(mask, sec, False)
     w_codes, w_class = refusal(mask, sec, True)
+    # one bucket per root cause: nothing looks at the READABLE/WRITEABLE bits on any path (F11a), while
+    # the other classes are kept apart by ATT operation (= handler)
+    r_site = 'read_paths' if r_class in ('plain_bit', 'no_permission_bit') else op
+    w_site = 'write_paths' if w_class == 'plain_bit' else op
 
     # -- no disclosure (every cell, every PDU any peer received)
     if not can_read and kind not in DECL_KINDS:
         if _leaks(value, got['all']):
-            out.append((f'disclosed/{r_class}/{op}', f'{desc}: the value appears in a PDU sent to the peer although the rule refuses reading'))
+            out.append((f'disclosed/{r_class}/{r_site}', f'{desc}: the value appears in a PDU sent to the peer although the rule refuses reading'))
     if other:
         out.append((f'bad_answer/other_bearer/{op}', f'{desc}: {len(other)} PDU(s) arrived on the other bearer'))
 
@@ -642,14 +694,14 @@ def judge(env, cell, plan, got, after, follow):
                 out.append((f'over_blocked/write_answer/{op}', f'{desc}: granted Write Request not answered by exactly one Write Response: {_hex(mine)}'))
         else:
             if after != value:
-                out.append((f'changed/{w_class}/{op}', f'{desc}: the server-side value changed although the rule refuses writing'))
+                out.append((f'changed/{w_class}/{w_site}', f'{desc}: the server-side value changed although the rule refuses writing'))
             if path == 'write_req' and not out:  # (an answer to a write that took effect is not judged again)
                 if not mine:
                     out.append((f'unanswered/{op}', f'{desc}: refused Write Request got no answer'))
                 else:
                     e = error_of(mine[0]) if len(mine) == 1 else None
                     if e is None or e[0] != opcode or e[2] not in w_codes:
-                        out.append((f'bad_answer/{w_class}/{op}',
+                        out.append((f'bad_answer/{w_class}/{w_site}',
                                     f'{desc}: refused write answered by {_hex(mine)}, expected one Error Response for 0x{opcode:02X} with a code in {sorted(w_codes)}'))
         return out
 
@@ -676,10 +728,10 @@ def judge(env, cell, plan, got, after, follow):
                 hs = _listed_handles(mine[0], opcode)
                 ok = hs is not None and h not in hs
                 if hs is not None and h in hs and path == 'fbtv_eq':
-                    out.append((f'disclosed/{r_class}/{op}', f'{desc}: Find By Type Value confirms the guessed value of an attribute the rule refuses to read'))
+                    out.append((f'disclosed/{r_class}/{r_site}', f'{desc}: Find By Type Value confirms the guessed value of an attribute the rule refuses to read'))
                     return out
         if not ok and not out:  # (the answer that disclosed the value is not judged a second time)
-            out.append((f'bad_answer/{r_class}/{op}',
+            out.append((f'bad_answer/{r_class}/{r_site}',
                         f'{desc}: refused read answered by {_hex(mine)}, expected one Error Response for 0x{opcode:02X} with a code in {sorted(r_codes)}'))
         return out
 
@@ -821,6 +873,9 @@ def run_program(ctx, params, steps, confirm=True) -> None:
             else:
                 cell, second = list(step), None
             cell[1], cell[2] = int(cell[1]), int(cell[2])
+            if excluded(ctx, cell):
+                ctx.label('excluded_known_trigger')
+                continue
             try:
                 plan, got, after, follow, plan2 = loop.complete(exec_cell(env, cell, second), horizon=120.0)
             except (vloop.Stalled, vloop.HorizonExceeded, vloop.BudgetExceeded) as e:
@@ -922,7 +977,7 @@ def run(ctx) -> None:
         ctx.floor(f'kind:{k}', 200)
     for k in DECL_KINDS:
         ctx.floor(f'kind:{k}', 2)
-    ctx.floor('model:refused_plain_bit', 50)
+    ctx.floor('model:refused_no_permission_bit', 50)
     ctx.floor('model:refused_requirement', 200)
     ctx.floor('model:granted_with_requirement', 50)
     ctx.floor('model:granted_plain', 5)
